@@ -35,4 +35,6 @@ finally:
     subprocess.run(["git", "-C", "/repo", "checkout", "--", "."], check=True)
     # restore generated facts to the clean tree's values
     subprocess.run([os.path.join(VERIF, "setup.sh")], capture_output=True, cwd=VERIF)
+    # evidence files written while the change was applied describe a modified tree: put the committed ones back
+    subprocess.run(["git", "-C", VERIF, "checkout", "--", "evidence"], capture_output=True)
 print(json.dumps(res))
